@@ -323,7 +323,8 @@ func (bs *baseServer) Handshake(transportName string, ctx *types.HttpContext) (*
 	transport.On("headers", func(args ...any) {
 		headers, req := args[0].(*utils.ParameterBag), args[1].(*types.HttpContext)
 		// req is the request being answered, ctx the one of the handshake
-		if !req.Query().Has("sid") {
+		// (the request that names no session: Verify takes an empty sid parameter for none)
+		if req.Query().Peek("sid") == "" {
 			if cookie := bs.opts.Cookie(); cookie != nil {
 				sessionCookie := *cookie
 				sessionCookie.Value = id
